@@ -473,6 +473,10 @@ def san_summary(err):
     return "%s in %s" % (kind or "abnormal exit", fr[0] if fr else "?")
 
 
+PER_CASE_HANG_LIMIT = 300     # seconds one case may take on its own before it is reported as a hang
+LAST_CORRESPOND = {}          # side information of the last correspond() call (cases not reached within the time budget)
+
+
 def correspond(impl_exe, model_exe, cases, timeout=900, batch=None, max_restarts=30):
     """cases: list of one-line strings.  Both executables read all cases on stdin and print,
     per case k (0-based), lines 'k <canonical result>'; either side may in addition print
@@ -492,8 +496,13 @@ def correspond(impl_exe, model_exe, cases, timeout=900, batch=None, max_restarts
                 d.setdefault(k, []).append(rest)
         return d, orc
     text = "".join(c + "\n" for c in cases)
+    LAST_CORRESPOND.clear()
     rc_m, out_m, err_m = run_lines(model_exe, text, timeout)
     dm, om = index(out_m, 0)
+    model_cut = None
+    if rc_m == 124:      # the model driver used up the batch's time budget: compare only what it answered
+        model_cut = (max(dm) if dm else -1)
+        LAST_CORRESPOND["model_time_budget_cut_at"] = model_cut
     di, oi, crashes, n_lines = {}, {}, [], 0
     off, restarts = 0, 0
     t_end = time.time() + timeout
@@ -512,6 +521,20 @@ def correspond(impl_exe, model_exe, cases, timeout=900, batch=None, max_restarts
                                 "what": san_summary(err_i) + " (at exit)", "stderr": err_i[-2500:]})
             break
         k = missing[0]
+        if rc_i == 124:
+            # The time budget of the whole batch ran out while case k was being processed.  That is a hang only
+            # if case k does not finish on its own either: run it alone with a generous limit before blaming it.
+            rc1, out1, err1 = run_lines(impl_exe, cases[k] + "\n", PER_CASE_HANG_LIMIT)
+            if rc1 != 124:
+                d1, o1 = index(out1, k)
+                di.update(d1)
+                for kk, v in o1.items():
+                    oi.setdefault(kk, []).extend(v)
+                if k not in d1:
+                    crashes.append({"case": cases[k], "k": k, "rc": rc1, "what": san_summary(err1), "stderr": err1[-2500:]})
+                off = k + 1
+                LAST_CORRESPOND["not_reached_time_budget"] = len(cases) - off
+                break
         crashes.append({"case": cases[k], "k": k, "rc": rc_i,
                         "what": ("timeout/hang" if rc_i == 124 else san_summary(err_i)), "stderr": err_i[-2500:]})
         off = k + 1
@@ -527,6 +550,8 @@ def correspond(impl_exe, model_exe, cases, timeout=900, batch=None, max_restarts
         if a is None:
             continue
         if b is None:
+            if model_cut is not None and k >= model_cut:
+                continue
             dis.append({"case": c, "k": k, "impl": a, "model": ["<no output>"], "stderr": err_m[-500:]})
             continue
         if a != b:
@@ -805,6 +830,7 @@ class Check:
             "samples": [c[:400] for c in cases[:: max(1, len(cases) // 6)][:6]],
             "distribution": self.distribution(list(zip(streams, cases))),
             "impl_output_lines": n_out,
+            "time_budget": dict(LAST_CORRESPOND),
             "translator": tr["constants"],
             "stage_seconds": stage_t,
             "modelled": self.modelled,
